@@ -395,7 +395,11 @@ pub fn make_case(rng: &mut Rng, proj: &Project, k: usize) -> Option<Case> {
     let schema_ix = SchemaIx::new(&merge_extensions(&proj.schema_model));
     let mut touched: BTreeSet<String> = BTreeSet::new();
     for _ in 0..k {
-        match rng.below(5) {
+        let which = rng.below(5);
+        if proj.schema_is_json && matches!(which, 0 | 2) {
+            continue; // the SDL fault injectors do not apply to an introspection result
+        }
+        match which {
             0 => {
                 let p = proj.schema_paths[rng.below(proj.schema_paths.len())].clone();
                 if touched.contains(&p) {
@@ -496,6 +500,22 @@ pub fn make_case(rng: &mut Rng, proj: &Project, k: usize) -> Option<Case> {
             }
         }
     }
+    // copy-paste twin: the same faulty text under a second name in the same directory gives identical diagnostics
+    // (same message, line and column) in two different files; both are offenders and both must be named
+    let mut op_paths = proj.op_paths.clone();
+    if rng.chance(1, 3) {
+        let cands: Vec<FaultRec> = faults.iter().filter(|f| matches!(f.stage, Stage::OpCheck | Stage::OpParse)).cloned().collect();
+        if let Some(f) = rng.pick_opt(&cands) {
+            let twin = format!("{}_twin.graphql", f.file.strip_suffix(".graphql").unwrap_or(&f.file));
+            if let Some((_, text)) = files.iter().find(|(p, _)| *p == f.file).cloned() {
+                if !files.iter().any(|(p, _)| *p == twin) {
+                    files.push((twin.clone(), text));
+                    op_paths.push(twin.clone());
+                    faults.push(FaultRec { stage: f.stage, file: twin, label: format!("{}|twin", f.label) });
+                }
+            }
+        }
+    }
     let schema_paths: Vec<String> = proj.schema_paths.iter().filter(|p| files.iter().any(|(fp, _)| fp == *p)).cloned().collect();
     let commands: Vec<String> = match rng.below(4) {
         0 => vec!["check".into()],
@@ -503,7 +523,7 @@ pub fn make_case(rng: &mut Rng, proj: &Project, k: usize) -> Option<Case> {
         _ => vec!["generate".into()],
     };
     let format = rng.s(&["json", "json", "human", "rdjson"]).to_string();
-    Some(Case { files, root: proj.root.clone(), schema_paths, op_paths: proj.op_paths.clone(), faults, commands, format, decl_ext: proj.config.decl_extension().to_string() })
+    Some(Case { files, root: proj.root.clone(), schema_paths, op_paths, faults, commands, format, decl_ext: proj.config.decl_extension().to_string() })
 }
 
 pub fn run(ctx: &Ctx, rep: &mut Report) {
@@ -511,10 +531,14 @@ pub fn run(ctx: &Ctx, rep: &mut Report) {
     let n = ctx.budget(12_800, 240_000);
     for case_n in 0..n {
         let mut rng = ctx.rng("case", case_n);
-        let Some(proj) = gen_project(&mut rng, &ProjOpts::standard()) else {
+        let Some(mut proj) = gen_project(&mut rng, &ProjOpts::standard()) else {
             rep.count("generator_gave_up");
             continue;
         };
+        if rng.chance(1, 6) {
+            proj = crate::genproj::introspection_variant(&proj, &mut rng);
+            rep.count("projects_with_introspection_json_schema");
+        }
         let k = *rng.pick(&[0usize, 0, 1, 1, 2, 3]);
         let Some(case) = make_case(&mut rng, &proj, k) else { continue };
         rep.trace_case(|| case_json(&case));
